@@ -103,6 +103,9 @@ package atree
 //@   ensures[C20] err == nil ==> refsClassified(s, references, brokenReferences) && (forall o *PersistentSlabStorage :: o != s ==> o.cache == old(o.cache))
 //@   ensures[C08] (forall j SlabID :: view(s, j) == old(view(s, j))) && s.deltas == old(s.deltas) && invCoh(s) && sameLedger()
 //@   ensures err != nil ==> categorised(err)
+//@   # the search goes on below every child storable that is not itself a reference, and below every referenced slab that was found
+//@   before[C20] Storable.ChildStorables#2: arg_recv == childStorable && !is(childStorable, SlabIDStorable)
+//@   before[C20] Storable.ChildStorables#3: arg_recv == childSlab && childSlab != nil
 //@   modifies s.cache, ghost.refsEnumerated, alloc
 //@   loop 1: invariant invCoh(s) && s.deltas == old(s.deltas) && sameLedger() && (forall j SlabID :: view(s, j) == old(view(s, j))) && refsClassified(s, references, brokenReferences) && (forall o *PersistentSlabStorage :: o != s ==> o.cache == old(o.cache))
 //@   loop 2: invariant invCoh(s) && s.deltas == old(s.deltas) && sameLedger() && (forall j SlabID :: view(s, j) == old(view(s, j))) && refsClassified(s, references, brokenReferences) && (forall o *PersistentSlabStorage :: o != s ==> o.cache == old(o.cache))
